@@ -339,3 +339,21 @@ package mapping
 //@   property C17
 //@   ghost at after ReadAll#0: rd = ret0
 //@   call UnmarshalYamlBytes#0: assert sameSlice(arg_content, rd) && arg_v == v && sameSlice(arg_opts, opts)
+
+// an optional embedded struct is all-or-nothing: once any of its fields was supplied, success means that no field that is
+// not optional was left out (ghost count of required fields without a value), and every supplied field went through
+// processField against the same input object
+//@ func (u *Unmarshaler) processAnonymousStructFieldOptional
+//@   property C08
+//@   flag callbacks_noheap nopanic:canonicalKey
+//@   requires m != nil
+//@   ghost at entry: missing = 0
+//@   ghost at entry: hv = false
+//@   ghost at entry: allok = true
+//@   ghost at after getValue#0: hv = ret1
+//@   ghost at after processField#0: allok = allok && (ret == nil)
+//@   ghost at after optional#0: missing = missing + ite(!ret && !hv, 1, 0)
+//@   call getValue#0: assert arg_m == m && arg_key == fieldKey
+//@   call processField#*: assert arg_m == m && hv
+//@   loop 0: invariant 0 <= i && required == requiredFilled + missing && missing >= 0 && allok
+//@   ensures implies(result == nil && filled, missing == 0 && allok)
